@@ -56,9 +56,30 @@ extern "C" void k_open_polygon()
   q[1] = yq;
   bool got = pols.inside(q, false);
   vf_assert_id(got == ((cross % 2) == 1), "open polygon: set answer == even-odd parity of the closed polygon");
+  vf_witness();
+}
+
+// closing rules alone (no query point, no geometric assumption: keeps these obligations linear)
+extern "C" void k_close_rules()
+{
+  const int nv = VF_NV;
+  double xi[VF_NV], yi[VF_NV];
+  VectorDouble x(nv), y(nv);
+  for (int i = 0; i < nv; i++)
+  {
+    xi[i] = (double)vf_range(-VF_G, VF_G); // linear obligations only: plain integers are the faster encoding here
+    yi[i] = (double)vf_range(-VF_G, VF_G);
+    x[i] = xi[i];
+    y[i] = yi[i];
+  }
+  vf_assume(xi[0] != xi[nv - 1] || yi[0] != yi[nv - 1]);
+  Polygons pols;
+  PolyElem e(x, y);
+  pols.addPolyElem(e);
   vf_assert_id(pols.getPolyElem(0).getNPoints() == nv, "the stored element itself is left as given");
   PolyElem c = pols.getClosedPolyElem(0);
   vf_assert_id(c.getNPoints() == nv + 1 && c.getX(nv) == xi[0] && c.getY(nv) == yi[0], "closing repeats vertex 0");
+  for (int i = 0; i < nv; i++) vf_assert_id(c.getX(i) == xi[i] && c.getY(i) == yi[i], "closing keeps the given vertices");
   c.closePolyElem();
   vf_assert_id(c.getNPoints() == nv + 1, "a closed element is left unchanged by closePolyElem");
   vf_witness();
